@@ -113,6 +113,21 @@ class VLoop(asyncio.SelectorEventLoop):
         self.iterations += 1
         return n
 
+    def step1(self):
+        """run exactly one ready callback (the head of the FIFO queue).  Environment actions placed between two such steps
+        happen where a callback queued at that point of the same iteration would run."""
+        while self._ready:
+            h = self._ready.popleft()
+            if h._cancelled:
+                continue
+            self._enter()
+            try:
+                h._run()
+            finally:
+                self._exit()
+            return 1
+        return 0
+
     def next_timer(self):
         ws = [h._when for h in self._scheduled if not h._cancelled]
         return min(ws) if ws else None
